@@ -7,19 +7,9 @@ use graphrs::Edge;
 use std::collections::{BTreeMap, BTreeSet};
 use std::sync::Arc;
 
-type EdgeKey = (String, String, u64);
-
-fn canon_list<A>(directed: bool, es: &[&Arc<Edge<String, A>>]) -> Vec<EdgeKey> {
-    let mut v: Vec<_> = es.iter().map(|e| canon_edge(directed, &e.u, &e.v, e.weight)).collect();
-    v.sort();
-    v
-}
-
-fn canon_model(directed: bool, es: &[&MEdge]) -> Vec<EdgeKey> {
-    let mut v: Vec<_> = es.iter().map(|e| canon_edge(directed, &e.u, &e.v, e.w)).collect();
-    v.sort();
-    v
-}
+/// canonical edge including its attributes: every view must return the stored edge itself
+type EdgeKey = EdgeKeyA;
+type EdgeKey3 = (String, String, u64);
 
 fn set_of<'a>(it: impl Iterator<Item = &'a String>) -> BTreeSet<String> {
     it.cloned().collect()
@@ -53,6 +43,19 @@ pub fn coherent_with<A: Clone + Send + Sync>(g: &graphrs::Graph<String, A>, m: &
     let names = m.names();
     let mut calls = 0u64;
     let mut absent_queries = 0u64;
+    let with_attrs = !m.ignore_edge_attrs;
+    let ke = |e: &Edge<String, A>| -> EdgeKey { canon_edge_a(d, &e.u, &e.v, e.weight, if with_attrs { attr(&e.attributes) } else { None }) };
+    let km = |e: &MEdge| -> EdgeKey { canon_edge_a(d, &e.u, &e.v, e.w, if with_attrs { e.a } else { None }) };
+    let canon_list = |_d: bool, es: &[&Arc<Edge<String, A>>]| -> Vec<EdgeKey> {
+        let mut v: Vec<_> = es.iter().map(|e| ke(e)).collect();
+        v.sort();
+        v
+    };
+    let canon_model = |_d: bool, es: &[&MEdge]| -> Vec<EdgeKey> {
+        let mut v: Vec<_> = es.iter().map(|e| km(e)).collect();
+        v.sort();
+        v
+    };
 
     // ---- nodes
     calls += 3;
@@ -89,10 +92,14 @@ pub fn coherent_with<A: Clone + Send + Sync>(g: &graphrs::Graph<String, A>, m: &
 
     // ---- all edges
     calls += 1;
-    let mut all: Vec<EdgeKey> = g.get_all_edges().iter().map(|e| canon_edge(d, &e.u, &e.v, e.weight)).collect();
+    let mut all: Vec<EdgeKey> = g.get_all_edges().iter().map(|e| ke(e)).collect();
     all.sort();
-    let want_all = m.edge_multiset();
-    out.check(all == want_all, "get_all_edges/eq_model/multiset", || format!("graph {:?} model {:?}", all, want_all));
+    let mut want_all: Vec<EdgeKey> = m.edges.iter().map(|e| km(e)).collect();
+    want_all.sort();
+    if all != want_all {
+        let strip = |v: &Vec<EdgeKey>| v.iter().map(|e| (e.0.clone(), e.1.clone(), e.2)).collect::<Vec<_>>();
+        out.fail(if strip(&all) == strip(&want_all) { "get_all_edges/eq_model/attributes" } else { "get_all_edges/eq_model/multiset" }, format!("graph {:?} model {:?}", all, want_all));
+    }
 
     // ---- pairwise lookups
     let mut inverted_pairs = 0;
@@ -126,9 +133,11 @@ pub fn coherent_with<A: Clone + Send + Sync>(g: &graphrs::Graph<String, A>, m: &
             } else {
                 match &r {
                     Ok(e) => {
-                        let got = canon_edge(d, &e.u, &e.v, e.weight);
-                        let want = canon_edge(d, &between[0].u, &between[0].v, between[0].w);
-                        out.check(got == want, "get_edge/eq_model/value", || format!("get_edge({:?},{:?}) -> {:?} want {:?}", u, v, got, want));
+                        let got = ke(e);
+                        let want = km(between[0]);
+                        if got != want {
+                            out.fail(if (&got.0, &got.1, got.2) == (&want.0, &want.1, want.2) { "get_edge/eq_model/attributes" } else { "get_edge/eq_model/value" }, format!("get_edge({:?},{:?}) -> {:?} want {:?}", u, v, got, want));
+                        }
                     }
                     Err(_) => out.fail(
                         if !d && (u < v) != (m.pos(u) < m.pos(v)) { "get_edge/present_edge/inverted_pair" } else { "get_edge/present_edge/kind" },
@@ -155,8 +164,8 @@ pub fn coherent_with<A: Clone + Send + Sync>(g: &graphrs::Graph<String, A>, m: &
                 match &r {
                     Ok(l) => {
                         // insertion order
-                        let got: Vec<EdgeKey> = l.iter().map(|e| canon_edge(d, &e.u, &e.v, e.weight)).collect();
-                        let want: Vec<EdgeKey> = between.iter().map(|e| canon_edge(d, &e.u, &e.v, e.w)).collect();
+                        let got: Vec<EdgeKey> = l.iter().map(|e| ke(e)).collect();
+                        let want: Vec<EdgeKey> = between.iter().map(|e| km(e)).collect();
                         if got != want {
                             let mut a = got.clone();
                             let mut b = want.clone();
@@ -422,8 +431,8 @@ pub fn coherent_with<A: Clone + Send + Sync>(g: &graphrs::Graph<String, A>, m: &
     let mut seen_pairs: BTreeSet<(String, String)> = BTreeSet::new();
     for ((a, b), l) in &snap.edges {
         let between = m.between(a, b);
-        let got: Vec<EdgeKey> = l.iter().map(|(u, v, w)| canon_edge(d, u, v, *w)).collect();
-        let want: Vec<EdgeKey> = between.iter().map(|e| canon_edge(d, &e.u, &e.v, e.w)).collect();
+        let got: Vec<EdgeKey3> = l.iter().map(|(u, v, w)| canon_edge(d, u, v, *w)).collect();
+        let want: Vec<EdgeKey3> = between.iter().map(|e| canon_edge(d, &e.u, &e.v, e.w)).collect();
         out.check(got == want, "snapshot/edges/eq_model", || format!("edges[{:?},{:?}] = {:?} want {:?}", a, b, got, want));
         let key = if !d && a > b { (b.clone(), a.clone()) } else { (a.clone(), b.clone()) };
         out.check(seen_pairs.insert(key), "snapshot/edges/pair_stored_under_two_keys", || format!("pair {:?},{:?}", a, b));
@@ -436,8 +445,8 @@ pub fn coherent_with<A: Clone + Send + Sync>(g: &graphrs::Graph<String, A>, m: &
             continue;
         }
         let between = m.between(&names[*i], &names[*j]);
-        let got: Vec<EdgeKey> = l.iter().map(|(u, v, w)| canon_edge(d, u, v, *w)).collect();
-        let want: Vec<EdgeKey> = between.iter().map(|e| canon_edge(d, &e.u, &e.v, e.w)).collect();
+        let got: Vec<EdgeKey3> = l.iter().map(|(u, v, w)| canon_edge(d, u, v, *w)).collect();
+        let want: Vec<EdgeKey3> = between.iter().map(|e| canon_edge(d, &e.u, &e.v, e.w)).collect();
         out.check(got == want, "snapshot/edges_map/eq_model", || format!("edges_map[{},{}] = {:?} want {:?}", i, j, got, want));
         let key = if !d && i > j { (*j, *i) } else { (*i, *j) };
         out.check(seen_pos.insert(key), "snapshot/edges_map/pair_stored_under_two_keys", || format!("pair {},{}", i, j));
